@@ -77,6 +77,8 @@ type Exec struct {
 	lower    bool
 	mu       *sync.Mutex
 	sink     func(line string) // when set, trace lines go there instead of `out`
+	before   string            // observation sweep taken before the current call (fault mode)
+	reported bool
 }
 
 func NewExec(root string, out io.Writer, seed int64) *Exec {
@@ -401,13 +403,17 @@ func (e *Exec) Run(op Op) {
 		return
 	}
 	e.curCall = nil
+	if e.failAt > 0 && !e.failed && op.Op != "open" && op.Op != "create" {
+		e.before = e.snapshot()
+	}
+	defer e.afterFault(op)
 	switch op.Op {
 	case "open":
 		sod.LowercaseNames = op.Lower
 		e.lower = op.Lower
 		shimInstall(e.hook)
 		e.db = sod.Open(e.root)
-		e.emit(fmt.Sprintf("open live=%s hooks=1", liveToken()), "ok")
+		e.emit(fmt.Sprintf("open live=%s hooks=1 lower=%d", liveToken(), b2i(op.Lower)), "ok")
 		// validate the model's case table on the alphabet in use
 		for _, s := range caseAlphabet {
 			e.emit(fmt.Sprintf("casemap %s %s %s %s", hx(s), hx(strings.ToUpper(s)), hx(strings.ToLower(s)), hx(strings.ToLower(strings.ToUpper(s)))), "ok")
@@ -737,6 +743,9 @@ func (e *Exec) Run(op Op) {
 
 	case "ls":
 		e.emit("ls", e.ls())
+		if d := e.collDir(); d != "" {
+			e.emit("dirname", hx(filepath.Base(d)))
+		}
 
 	case "disk":
 		u := e.uuidOfK(op.K)
@@ -1046,4 +1055,53 @@ func (e *Exec) consistent() string {
 		}
 	}
 	return "true"
+}
+
+// snapshot is everything observable through the read paths, as one canonical string.
+func (e *Exec) snapshot() string {
+	defer func() { recover() }()
+	b := &strings.Builder{}
+	n, err := e.db.Count(&T{})
+	fmt.Fprintf(b, "count=%d/%s;", n, errClass(err))
+	objs, err := e.db.All(&T{})
+	fmt.Fprintf(b, "all=%s/%s;", e.objsToken(objs, true), errClass(err))
+	for _, l := range leaves {
+		if l.Cast != "-" {
+			fmt.Fprintf(b, "%s=%s;", l.Path, e.assignIndex(l.Path))
+		}
+	}
+	return b.String()
+}
+
+// afterFault: once the injected I/O error has fired, the property's oracle sequence is run and
+// the history stops (the model does not follow storage faults).
+func (e *Exec) afterFault(op Op) {
+	if e.failAt == 0 || !e.failed || e.reported {
+		return
+	}
+	e.reported = true
+	failAt := e.failAt
+	e.failAt = 0 // no further fault
+	same := e.snapshot() == e.before
+	e.emit(fmt.Sprintf("faultsame %d %s", failAt, op.Op), fmt.Sprintf("%t", same))
+	ctl := guard(func() string { return errClass(e.db.Control()) })
+	e.emit("control", ctl)
+	e.emit("consistent", guard(func() string { return e.consistent() }))
+	if ctl != "ok" {
+		e.emit("repair", guard(func() string { return errClass(e.db.Repair(&T{})) }))
+		e.emit("control", guard(func() string { return errClass(e.db.Control()) }))
+		e.emit("consistent", guard(func() string { return e.consistent() }))
+	}
+	// what a restart sees (the handle is abandoned: nothing more is written)
+	e.db = sod.Open(e.root)
+	e.emit("reopen", "ok")
+	e.emit("count", guard(func() string {
+		n, err := e.db.Count(&T{})
+		if err != nil {
+			return errClass(err)
+		}
+		return fmt.Sprintf("%d", n)
+	}))
+	e.emit("consistent", guard(func() string { return e.consistent() }))
+	e.aborted = true
 }
